@@ -110,6 +110,7 @@ type nodeOpts struct {
 	snapThr   uint64
 	trailing  uint64
 	store     storage.ManagedStore // optional pre-built (wrapped) store
+	snapCh    chan *protocol.Snapshot // optional: the snapshots channel (not drained by the harness)
 }
 
 // startNode starts a real RaftNode (raft + rocks) in this process.
@@ -133,8 +134,11 @@ func startNode(o nodeOpts) (*consensus.RaftNode, chan *protocol.Snapshot, error)
 	if st == nil {
 		st = openRocks(o.dir + "/db")
 	}
-	ch := make(chan *protocol.Snapshot, 65536)
-	drain(ch)
+	ch := o.snapCh
+	if ch == nil {
+		ch = make(chan *protocol.Snapshot, 65536)
+		drain(ch)
+	}
 	n, err := consensus.NewRaftNode(opts, st, ch, nil)
 	if err != nil {
 		return nil, nil, err
